@@ -25,13 +25,14 @@ template <class T> static void table (const char* path)
         e.angleOrder (ai, aj, ak); e.angleMapping (mi, mj, mk);
         Vec3<T> xyz = e.toXYZVector ();
         Euler<T> f (Vec3<T> (10, 20, 30), o, Euler<T>::XYZLayout); // XYZ layout constructor
+        Euler<T> f3 ((T) 10, (T) 20, (T) 30, o, Euler<T>::XYZLayout);   // the three-scalar form of the same constructor
         Euler<T> g (o); g.setXYZVector (Vec3<T> (10, 20, 30));
         Euler<T> h; h.setOrder (o);
         Vec3<T> back = f.toXYZVector ();
         printf ("{\"e\":\"order\",\"t\":\"%s\",\"code\":%d,\"legal\":%d,\"order\":%d,\"order2\":%d,\"static\":%d,\"repeated\":%d,\"even\":%d,\"axis\":%d,"
-                "\"ao\":[%d,%d,%d],\"am\":[%d,%d,%d],\"slots\":[%d,%d,%d],\"toxyz\":[%d,%d,%d],\"ctorxyz\":[%d,%d,%d],\"setxyz\":[%d,%d,%d],\"back\":[%d,%d,%d]}\n",
+                "\"ao\":[%d,%d,%d],\"am\":[%d,%d,%d],\"slots\":[%d,%d,%d],\"toxyz\":[%d,%d,%d],\"ctorxyz\":[%d,%d,%d],\"ctorxyz3\":[%d,%d,%d],\"setxyz\":[%d,%d,%d],\"back\":[%d,%d,%d]}\n",
                 tg<T> (), code, (int) Euler<T>::legal (o), (int) e.order (), (int) h.order (), (int) e.frameStatic (), (int) e.initialRepeated (), (int) e.parityEven (),
-                (int) e.initialAxis (), ai, aj, ak, mi, mj, mk, (int) e.x, (int) e.y, (int) e.z, (int) xyz.x, (int) xyz.y, (int) xyz.z, (int) f.x, (int) f.y, (int) f.z,
+                (int) e.initialAxis (), ai, aj, ak, mi, mj, mk, (int) e.x, (int) e.y, (int) e.z, (int) xyz.x, (int) xyz.y, (int) xyz.z, (int) f.x, (int) f.y, (int) f.z, (int) f3.x, (int) f3.y, (int) f3.z,
                 (int) g.x, (int) g.y, (int) g.z, (int) back.x, (int) back.y, (int) back.z);
     }
 }
